@@ -33,7 +33,7 @@ PROPS = ["Transparent", "SameOperationsModuloKnown", "CacheOnlyInEval", "CallFil
 INVS = ["TypeOK", "TrainingHasNoCache", "CacheIsCurrent"]
 
 
-def consts(alias, lad, load=True, apply_=True, train=True, inplace=False, copy_=True):
+def consts(alias, lad, load=True, apply_=True, train=True, inplace=False, copy_=True, train_off=None, frozen_cached=False):
     """load / apply_ / train: True (the step drops the cache), False (never), "either" (permissive)."""
     b = lambda x: "TRUE" if x else "FALSE"
     sset = lambda x: "{TRUE, FALSE}" if x == "either" else "{%s}" % b(x)
@@ -43,6 +43,8 @@ def consts(alias, lad, load=True, apply_=True, train=True, inplace=False, copy_=
         "LoadInvalidates": sset(load),
         "ApplyInvalidates": sset(apply_),
         "TrainInvalidates": sset(train),
+        "TrainInvalidatesOff": sset(train if train_off is None else train_off),
+        "CachedWhenFrozen": sset(frozen_cached),
         "CopyDrops": sset(copy_),
         "WithInplace": b(inplace),
     }
@@ -145,6 +147,9 @@ class Driver:
         t = build(self.cls, self.D, False, self.seed)
         t.to(self.dtype())
         t.load_state_dict(self.m.state_dict())
+        flags = {n: p.requires_grad for n, p in self.m.named_parameters()}
+        for n, p in t.named_parameters():
+            p.requires_grad_(flags.get(n, True))
         t.train()  # training mode never consults the cache
         return t
 
@@ -187,6 +192,7 @@ class Driver:
             "uc": bool(m.using_cache),
             "dt": "f32" if pd == self.torch.float32 else "f64",
             "occ": [c.weight is not None, c.inverse is not None, c.logabsdet is not None],
+            "fz": not any(p.requires_grad for p in m.parameters()),
         }
 
     def apply(self, name, args):
@@ -235,6 +241,10 @@ class Driver:
             self.dt = d
             ev["d"] = d
             self.bw_since_fill = False
+        elif name == "SetFrozen":
+            for p in m.parameters():
+                p.requires_grad_(not bool(args[0]))
+            ev["b"] = bool(args[0])
         elif name == "Copy":
             import copy as _copy
 
@@ -306,8 +316,70 @@ class Driver:
 VARIANTS = ["direct", "train_arg", "parent"]
 
 
+def history_of_counterexample(stdout):
+    """The history (driver actions) of the counterexample TLC printed: the observation variable `res` names the
+    step, the flags in the state give its argument."""
+    from vcore.tlaval import parse_state
+
+    hist = []
+    blocks = re.split(r"^State \d+: .*$", stdout, flags=re.M)[1:]
+    for blk in blocks:
+        body = blk.split("\n\n")[0] if "\n\n" in blk.strip() else blk
+        lines = [l for l in blk.splitlines() if l.startswith("/\\") or l.startswith("  ") or l.startswith("   ")]
+        try:
+            st = parse_state("\n".join(lines))
+        except Exception:  # noqa
+            continue
+        r = st.get("res")
+        if not r:
+            continue
+        k = str(r["k"])
+        if k == "train":
+            hist.append(["Train"])
+        elif k == "eval":
+            hist.append(["Eval"])
+        elif k == "use":
+            hist.append(["UseCache", bool(st["usingCache"])])
+        elif k == "call":
+            hist.append(["Call", str(r["dir"]), bool(r["bw"])])
+        elif k == "opt":
+            hist.append(["OptStep"])
+        elif k == "load":
+            hist.append(["Load"])
+        elif k == "to":
+            hist.append(["ToDtype", str(st["dt"])])
+        elif k == "copy":
+            hist.append(["Copy"])
+        elif k == "freeze":
+            hist.append(["SetFrozen", bool(st["frozenP"])])
+    return hist
+
+
+def derived_task(task):
+    """A history that TLC derived as the failing one for a broken design, on one real class: every call must
+    agree with the uncached twin (the real code must not be that design)."""
+    import torch
+
+    torch.set_num_threads(1)
+    cls, uc, variant, seed, label, hist = task
+    out = {"n": 0, "fails": []}
+    D = 3 if cls in ("QRLinear", "SVDLinear") else 2
+    try:
+        d = Driver(cls, D, uc, seed, variant)
+    except Exception:  # noqa
+        return out
+    for h in hist:
+        ev, fail = d.apply(h[0], h[1:])
+        out["n"] += 1
+        if fail:
+            fail.update(cls=cls, D=D, uc0=uc, seed=seed, history=list(d.history), step=len(d.history), variant=variant, design=label)
+            out["fails"].append(fail)
+            break
+    return out
+
+
 def spec_projection(st):
-    return (bool(st["training"]), bool(st["usingCache"]), str(st["dt"]), (bool(st["cw"]["filled"]), bool(st["ci"]["filled"]), bool(st["cl"]["filled"])))
+    return (bool(st["training"]), bool(st["usingCache"]), str(st["dt"]), (bool(st["cw"]["filled"]), bool(st["ci"]["filled"]), bool(st["cl"]["filled"])), bool(st["frozenP"]))
 
 
 def walk_task(task):
@@ -339,12 +411,26 @@ def walk_task(task):
         if fail:
             fail.update(cls=cls, D=D, uc0=uc, seed=seed, history=list(d.history), step=len(d.history), variant=d.variant)
             out["fails"].append(fail)
-        return (ev["tr"], ev["uc"], ev["dt"], tuple(ev["occ"]))
+        return (ev["tr"], ev["uc"], ev["dt"], tuple(ev["occ"]), ev["fz"])
 
     def strip(lab_args):
         return lab_args
 
-    res = online_cover(g, init, lambda n, a: apply_fn(n, a[:2] if n == "Call" else a), spec_projection, max_steps=max_steps, rnd=_random.Random(seed), random_steps=random_steps)
+    def guard(name, args):
+        # enabling conditions of LinearCache.tla's actions, evaluated on the real object
+        frozen = not any(p.requires_grad for p in d.m.parameters())
+        if name == "OptStep":
+            return d.m.training and not frozen
+        if name == "Eval":
+            return not frozen
+        if name == "SetFrozen":
+            return d.m.training
+        return name != "InplaceEdit"
+
+    # a call's label is (direction, backward): the outcome and whether the cached path was taken are what the
+    # designs differ in, i.e. part of the successor, not of the stimulus
+    g.edges = [(s_, d_, nm, (ar[:2] if nm == "Call" else ar)) for (s_, d_, nm, ar) in g.edges]
+    res = online_cover(g, init, lambda n, a: apply_fn(n, a[:2] if n == "Call" else a), spec_projection, max_steps=max_steps, rnd=_random.Random(seed), random_steps=random_steps, free_guard=guard, free_steps=400)
     out["pairs_tried"] = res["pairs_tried"]
     for cur, lab, proj in res["left_model"][:3]:
         out["drift"].append("%s (%s): after %s the real object is in %s, which no design of the permissive model allows" % (cls, variant, lab, proj))
@@ -422,20 +508,26 @@ def main(run, replay=None):
     for alias, lad in shapes:
         res = T.run_tlc("LinearCache", T.cfg(constants=consts(alias, lad), invariants=INVS, properties=PROPS, view="View"), name="lc_repaired")
         run.model_must_hold(res, "LinearCache repaired alias=%s lad=%s" % (alias, lad))
-        run.add_tlc(res, "repaired design alias=%s ladsaves=%s" % (alias, lad), require_actions=["Train", "Eval", "UseCache", "Call", "Load", "ToDtype", "Copy"])
+        run.add_tlc(res, "repaired design alias=%s ladsaves=%s" % (alias, lad), require_actions=["Train", "Eval", "UseCache", "Call", "Load", "ToDtype", "Copy", "SetFrozen"])
     # (S') the spec discriminates: designs without invalidation violate Transparent / SameOperations
     derived = []
+    derived_hist = []
     for label, kw, prop in [
         ("no invalidation on load_state_dict", dict(load=False), "Transparent"),
         ("no invalidation on dtype conversion", dict(apply_=False), "SameOperationsModuloKnown"),
         ("no invalidation on train()", dict(train=False), "Transparent"),
+        ("train() drops the cache only while using_cache is on", dict(train_off=False), "Transparent"),
+        ("cached path taken in training mode while the parameters are frozen", dict(frozen_cached=True), "Transparent"),
         ("cached tensors deep-copied with the module", dict(copy_=False), "CopyWorks"),
         ("repeated backward (known finding)", dict(), "SameOperations"),
     ]:
-        res = T.run_tlc("LinearCache", T.cfg(constants=consts(False, True, **kw), properties=[prop], view="View"), name="lc_broken", coverage=False)
+        res = T.run_tlc("LinearCache", T.cfg(constants=consts(False, True, **kw), properties=[prop], view="View"), name="lc_broken", coverage=False, workers=1)
         if res.ok:
             raise T.MachineryError("spec does not discriminate: design '%s' satisfies %s" % (label, prop))
-        derived.append({"design": label, "violated": res.violated})
+        hist = history_of_counterexample(res.stdout)
+        derived.append({"design": label, "violated": res.violated, "history": hist})
+        if hist and "known finding" not in label:
+            derived_hist.append((label, hist))
         run.states += res.distinct
         run.transitions += res.generated
     run.extra["counterexamples_derived_for_broken_designs"] = derived
@@ -443,7 +535,7 @@ def main(run, replay=None):
     for alias, lad in shapes:
         res = T.run_tlc(
             "LinearCache",
-            T.cfg(constants=consts(alias, lad, load="either", apply_="either", train="either", copy_="either"), view="View"),
+            T.cfg(constants=consts(alias, lad, load="either", apply_="either", train="either", copy_="either", frozen_cached="either"), view="View"),
             dot=True,
             name="lc_permissive",
             coverage=False,
@@ -466,6 +558,16 @@ def main(run, replay=None):
     gw = graphs[CLASSES["LULinear"]]
     for init in gw.init:
         tasks.append(("LULinear", 96, bool(gw.states[init]["usingCache"]), run.seed * 1000 + 77, "direct", gw, init, 1200 if thorough else 260, 40, "LULinear/D=96/uc=%s/direct" % bool(gw.states[init]["usingCache"])))
+    # the failing histories TLC derived for the broken designs, on every real class (both initial cache flags,
+    # every way of switching modes): the real code must not be one of those designs
+    dtasks = [(cls, uc, variant, run.seed * 1000 + 500 + i, label, hist) for i, (label, hist) in enumerate(derived_hist) for cls in CLASSES for uc in (False, True) for variant in VARIANTS]
+    for out in pmap(derived_task, dtasks):
+        run.evaluations += out["n"]
+        for f in out["fails"]:
+            attrs = {"cls": f["cls"], "outcome": f["outcome"], "prior_cached_backward": f.get("prior_cached_backward")}
+            case = {k: f[k] for k in ("cls", "D", "uc0", "seed", "history", "variant")}
+            run.violation(attrs, "%s (%s mode switching): the history TLC derives for the design '%s' fails on the real class: %s (%s); history %s" % (f["cls"], f["variant"], f["design"], f["outcome"], f["detail"], f["history"]), case)
+    run.extra["derived_histories_replayed"] = len(dtasks)
     traces_by_shape = {}
     pairs_tried = 0
     if True:
